@@ -8,7 +8,9 @@
  *        5 LSS frame (payload symbolic)  6 foreign identifier (symbolic)
  *        7 API CONmtSetMode / CONodeStart   8 COEmcySet   9 TPDO trigger
  *        10 timer tick with the heartbeat producer due                      */
+#ifndef NOSYNC            /* NOSYNC: dictionary without 1005h/1006h (SYNC is optional) */
 #define OD_SYNC
+#endif
 #define OD_EMCY
 #define OD_HBC
 #define OD_RPDO 1
@@ -121,11 +123,15 @@ void harness(void)
 #elif IN == 3
     /* ------------------------------------------------ SYNC */
     env_deliver(&node, 0x80, dlc, d);
+#ifdef NOSYNC
+    if (MODE != 4) { CHECK(env_canrcv_n == 1, "without 1005h identifier 080h belongs to nobody: handed to the application exactly once"); }
+#else
     if ((MODE == 2) || (MODE == 3)) {
         CHECK(env_canrcv_n == 0, "SYNC consumed in PRE-OP / OPERATIONAL");
     } else if (MODE == 1) {
         CHECK(env_canrcv_n == 1, "unclaimed frame handed to the application exactly once");
     }
+#endif
     CHECK(env_tx_n == 0 && app.b == b0, "no transmission and no object change (nothing synchronous configured)");
 #elif IN == 4
     /* ------------------------------------------------ heartbeat of node 9 */
